@@ -86,7 +86,7 @@ func (e *Exec) mergeRet(rets []Val, conds []*Term, res *types.Tuple) Val {
 func (e *Exec) havocCall(res *types.Tuple, tag string) Val {
 	old := e.curState
 	e.curState = old.HavocAll()
-	e.assume(Implies(e.curReach, Ge(e.curState.next, old.next)))
+	e.assume(Implies(e.guard(), Ge(e.curState.next, old.next)))
 	return e.freshResults(res, tag)
 }
 
@@ -214,9 +214,9 @@ func (e *Exec) appendSlice(s, xs *Term, es Sort) *Term {
 		Implies(inPlace, Forall([]*Term{bi}, Implies(Or(Lt(bi, Add(SOff(s), SLen(s))), Ge(bi, Add(SOff(s), newLen))),
 			Eq(Select(Select(newComp, target), bi), Select(Select(comp, target), bi))),
 			[]*Term{Select(Select(newComp, target), bi)})),
-		Implies(Not(inPlace), And(Ge(newCap, newLen), Le(newCap, BigIntLit("1152921504606846976")))),
+		Implies(Not(inPlace), And(Ge(newCap, newLen), Le(newCap, BigIntLit("1152921504606846976")), Eq(RType(r), arrayTag(es)))),
 	}
-	e.assume(Implies(e.curReach, And(facts...)))
+	e.assume(Implies(e.guard(), And(facts...)))
 	st.Set(elemComp(es), newComp)
 	st.next = Ite(inPlace, st.next, Add(st.next, IntLit(1)))
 	return res
@@ -237,7 +237,7 @@ func (e *Exec) copySlice(dst, src *Term, es Sort) Val {
 			Ite(And(Le(lo, bi), Lt(bi, hi)), Select(Select(comp, SArr(src)), Add(SOff(src), Sub(bi, lo))), Select(Select(comp, tgt), bi))),
 			[]*Term{Select(Select(newComp, tgt), bi)}),
 	}
-	e.assume(Implies(e.curReach, And(facts...)))
+	e.assume(Implies(e.guard(), And(facts...)))
 	st.Set(elemComp(es), Ite(Eq(n, IntLit(0)), comp, newComp))
 	return n
 }
@@ -279,7 +279,7 @@ func (e *Exec) havocByModset(ms map[string]bool, res *types.Tuple, tag string) V
 	e.curState.Havoc(names, tag)
 	if ms["next"] {
 		nn := Fresh("next$"+tag, SInt)
-		e.assume(Implies(e.curReach, Ge(nn, e.curState.next)))
+		e.assume(Implies(e.guard(), Ge(nn, e.curState.next)))
 		e.curState.next = nn
 	}
 	return e.freshResults(res, tag)
@@ -344,14 +344,15 @@ func (e *Exec) inlineCall(f *ssa.Function, bindings []Val, args []Val) Val {
 			unsupported("closure %s without bindings", f)
 		}
 	}
-	sub.entryReach = e.curReach
+	sub.reachBase = e.guard()
+	sub.curReach = True
 	sub.execBody()
 	sub.finish()
 	e.root().Inlined[fullName(f)] = true
 	e.curState = sub.exit
-	if sub.exitCond == False {
-		// never returns
-		e.curReach = False
+	if sub.exitCond != True {
+		// paths on which the callee does not return (panic) end here
+		e.curReach = And(e.curReach, sub.exitCond)
 	}
 	switch len(sub.results) {
 	case 0:
@@ -393,7 +394,7 @@ func (e *Exec) contractCall(f *ssa.Function, ct *FuncContract, c *ssa.CallCommon
 	bindResults(post.names, f, ret)
 	for _, en := range ct.Ensures {
 		t := e.evalContractBool(en.Expr, post, "ensures of "+ct.Name)
-		e.assume(Implies(e.curReach, t))
+		e.assume(Implies(e.guard(), t))
 	}
 	if ct.Flags["trusted"] {
 		e.root().Assumed["trusted contract of "+FuncKey(f)] = true
